@@ -116,6 +116,14 @@ theorem readPacket_makeData_E (d : DataIn) (sign H : Bytes → Bytes) (e : Encod
   | alloc => rw [hp] at h1; cases h1
   | oom => rw [hp] at h1; cases h1
 
+theorem readPacket_makeInterest_E (i : InterestIn) (sign H : Bytes → Bytes) (e : Encoded) (fn : Name) (r : Rd)
+    (hv : i.Valid) (hnt : NoTrailingDigest i) (hH : ∀ x, (H x).length = 32)
+    (hm : makeInterest i sign H = .ok (e, fn)) (hr : At r e.wire.flatten 0) :
+    ∃ cov, readPacket H r = .ok (.interest (interestExpect i fn e.sigVal) cov) ∧ (i.est > 0 → e.sigCovered = some cov) := by
+  obtain ⟨cov, h1, h2⟩ := readPacket_interest_roundtrip readerSpecs E (parseSigInfo_at readerSpecs E) i sign H e fn r hv hnt hH hm hr
+  obtain ⟨_, _, hs, _⟩ := E.makeInterest_flatten i sign H e fn hv hH hm
+  exact ⟨cov, h1, fun he => by rw [(hs he).2.1, h2 he]⟩
+
 /-- the standalone name encoder writes the same bytes as the packet encoder's name field and as
     the NDN format prescribes; a built Data value starts with them -/
 theorem nameBytes_eq_packetName_E (n : Name) :
